@@ -119,6 +119,10 @@ func main() {
 	}
 
 	cfg := nsq.NewConfig()
+	// go-nsq finishes a message without handling it once it has been attempted
+	// more than MaxAttempts (default 5) times; nsq_to_file must never acknowledge
+	// a message it has not written, so the limit is off unless a consumer-opt sets it
+	cfg.MaxAttempts = 0
 	cfgFlag := nsq.ConfigFlag{cfg}
 	for _, opt := range opts.ConsumerOpts {
 		cfgFlag.Set(opt)
